@@ -195,7 +195,9 @@ func (p *bitmapPool) allocBitmap(w, h int) (*bitmap.Bitmap, error) {
 	if err := p.charge(cost); err != nil {
 		return nil, err
 	}
-	return bitmap.New(w, h), nil
+	bm := bitmap.New(w, h)
+	verifPool('A', bm.Pix, cost, p)
+	return bm, nil
 }
 
 // freeBitmap returns a bitmap's bytes to the live counter.  Use this
@@ -204,12 +206,14 @@ func (p *bitmapPool) allocBitmap(w, h int) (*bitmap.Bitmap, error) {
 func (p *bitmapPool) freeBitmap(bm *bitmap.Bitmap) {
 	if bm != nil {
 		p.release(len(bm.Pix))
+		verifPool('F', bm.Pix, len(bm.Pix), p)
 	}
 }
 
 // freeInts returns a []int slice's bytes to the live counter.
 func (p *bitmapPool) freeInts(s []int) {
 	p.release(len(s) * 8)
+	verifPool('f', nil, len(s)*8, p)
 }
 
 // allocInts charges the budget and allocates a []int slice.  Each entry
@@ -225,6 +229,7 @@ func (p *bitmapPool) allocInts(n int) ([]int, error) {
 	if err := p.charge(cost); err != nil {
 		return nil, err
 	}
+	verifPool('a', nil, cost, p)
 	return make([]int, n), nil
 }
 
@@ -241,6 +246,7 @@ func (p *bitmapPool) allocPointers(n int) ([]*bitmap.Bitmap, error) {
 	if err := p.charge(cost); err != nil {
 		return nil, err
 	}
+	verifPool('a', nil, cost, p)
 	return make([]*bitmap.Bitmap, n), nil
 }
 
